@@ -46,6 +46,12 @@ func (o c14op) String() string {
 	if o.kind == 'Z' {
 		return "Z"
 	}
+	if o.kind == 'N' {
+		return fmt.Sprintf("Find;idle;FindNext(%v)", o.d)
+	}
+	if o.kind == 'F' {
+		return fmt.Sprintf("ReplaceFunc-with-idle(%v)", o.d)
+	}
 	return fmt.Sprintf("%c(%v)", o.kind, o.d)
 }
 
@@ -57,6 +63,18 @@ type c14obs struct {
 }
 
 var c14long = strings.Repeat("a", 22) + "b"
+
+func c14note(op c14op, t0, t1 int64, err error) c14obs {
+	ob := c14obs{op: op, t0: t0, t1: t1}
+	if err != nil {
+		if strings.Contains(err.Error(), "match timeout") {
+			ob.timedOut = true
+		} else {
+			ob.otherErr = err.Error()
+		}
+	}
+	return ob
+}
 
 func c14runOp(o c14op, out *[]c14obs) {
 	s := vsched.S
@@ -71,6 +89,33 @@ func c14runOp(o c14op, out *[]c14obs) {
 		// length of time between two of its operations) instead of in the order their costs dictate
 		vsched.Cur().LoadCost = 0
 		vsched.Cur().Free = true
+	case 'N':
+		// continuation scan: a first match, an idle period longer than the timeout, then FindNextMatch on the
+		// same Regexp (served by the pooled runner of the first scan); each call on its own finishes at once
+		re := regexp2.MustCompile(`ab`)
+		re.MatchTimeout = o.d
+		t0 := s.Now
+		m, err := re.FindStringMatch("ab ab")
+		*out = append(*out, c14note(c14op{'Q', o.d}, t0, s.Now, err))
+		vsched.Work(int64(2 * o.d))
+		t0 = s.Now
+		var err2 error
+		if m != nil {
+			_, err2 = re.FindNextMatch(m)
+		}
+		*out = append(*out, c14note(c14op{'Q', o.d}, t0, s.Now, err2))
+	case 'F':
+		// Replace loop whose evaluator idles: three instantaneous scans spread over 1.5 d
+		re := regexp2.MustCompile(`ab`)
+		re.MatchTimeout = o.d
+		t0 := s.Now
+		_, err := re.ReplaceFunc("ab ab ab", func(m regexp2.Match) string {
+			vsched.Work(int64(o.d / 2))
+			return "x"
+		}, -1, -1)
+		ob := c14note(c14op{'Q', o.d}, t0, s.Now, err)
+		ob.t1 = ob.t0 // every scan of the loop finishes at once: a timeout is never due, whatever the evaluator takes
+		*out = append(*out, ob)
 	case 'L', 'Q':
 		re := regexp2.MustCompile(`(a+)+$`)
 		in := c14long
@@ -323,6 +368,12 @@ func c14Scenarios(tier string) []schedScenario {
 			mk(fmt.Sprintf("together+free+hold P=4ms: %v || %v", a, b), [][]c14op{a, b}, 4*time.Millisecond, pb-1, 1, 0)
 		}
 	}
+	// continuation scans: FindNextMatch after an idle period longer than the timeout, Replace loops whose evaluator
+	// idles; every scan gets its own deadline, so none of them may report a timeout
+	for _, h := range [][]c14op{{{'N', d1}}, {{'Q', d2}, {'N', d1}}, {{'N', d1}, {'N', d2}}, {{'L', d1}, {'N', d1}}, {{'F', d1}}, {{'Q', d2}, {'F', d1}}, {{'N', d2}, {'F', d1}}, {{'N', d1}, {'S', 0}, {'N', d1}}} {
+		mk(fmt.Sprintf("continuation P=4ms: %v", h), [][]c14op{h}, 4*time.Millisecond, 2, 0, 0)
+	}
+	mk("continuation P=4ms: [Find;idle;FindNext(16ms)] || [Q(40ms)]", [][]c14op{{{'N', d1}}, {{'Q', d2}}}, 4*time.Millisecond, 1, 0, 0)
 	// very large timeouts (just below "forever"): the deadline arithmetic must not overflow; StopTimeoutClock ends
 	// the run because the clock legitimately stays alive until the deadline
 	for _, d := range []time.Duration{time.Duration(math.MaxInt64 - 1), time.Duration(math.MaxInt64) - 50*time.Millisecond, time.Duration(math.MaxInt64) - 200*time.Millisecond, 200 * 365 * 24 * time.Hour} {
